@@ -3332,7 +3332,7 @@ impl<'s> Semantics<'s> {
             // CF is the bit sent from one end to the other. In our case, it should be LSB of result
             block.assign(scalar("CF", 1), Expr::trun(1, result.clone())?);
 
-            // OF is XOR of two most-significant bits of result
+            // OF (1-bit rotate) is the XOR of the most-significant bit of the result and CF
             block.assign(
                 scalar("OF", 1),
                 Expr::xor(
@@ -3343,13 +3343,7 @@ impl<'s> Semantics<'s> {
                             expr_const(result.bits() as u64 - 1, result.bits()),
                         )?,
                     )?,
-                    Expr::trun(
-                        1,
-                        Expr::shr(
-                            result.clone(),
-                            expr_const(result.bits() as u64 - 2, result.bits()),
-                        )?,
-                    )?,
+                    Expr::trun(1, result.clone())?,
                 )?,
             );
 
